@@ -9,6 +9,10 @@ FN = ["f0", "f1", "f2", "f3"]          # context functions (handlers 10..13)
 # context's one shadows it: a call invokes exactly one of them) and one whose name is also a context variable (`w(..)` calls it)
 GLOBALS = {"g0": 20, "g1": 21, "f3": 22, "w": 23}
 HIDS = {"f0": 10, "f1": 11, "f2": 12, "f3": 13}
+# registered operators with logging handlers: a RIGHT-associative and a LEFT-associative calc operator (two levels), a prefix and a
+# postfix operator - operands still run left to right, each once, the handler after them
+REGOPS = {("I", "~>"): 30, ("I", "<>"): 31, ("P", "!!"): 32, ("S", "+++"): 33}
+REGI = {"~>": (107, True), "<>": (105, False)}
 
 def n(x): return ("n", Fraction(x))
 RET = [n(0), n(1), n(2), n(5), ("b", True), ("b", False), ("b", True), n(3)]
@@ -31,35 +35,41 @@ def plain_item(rng):
     if q < 0.55: return ("ref", rng.choice(["v", "w"]))
     return ("ref", rng.choice(FN))
 
-def rnd_tree(rng, depth):
+def rnd_tree(rng, depth, regops=False):
     r = rng.random()
     if depth <= 0 or r < 0.3:
         return leaf(rng)
     if r < 0.47:
-        return ("call", rng.choice(FN + list(GLOBALS)), [rnd_tree(rng, depth - 1) for _ in range(rng.randint(1, 3))])
+        return ("call", rng.choice(FN + list(GLOBALS)), [rnd_tree(rng, depth - 1, regops) for _ in range(rng.randint(1, 3))])
     if r < 0.5:
-        return ("call", rng.choice(["min", "max", "sum", "mul"]), [rnd_tree(rng, depth - 1) for _ in range(rng.randint(1, 3))])
-    if r < 0.62: return ("tern", rnd_tree(rng, depth - 1), rnd_tree(rng, depth - 1), rnd_tree(rng, depth - 1))
+        return ("call", rng.choice(["min", "max", "sum", "mul"]), [rnd_tree(rng, depth - 1, regops) for _ in range(rng.randint(1, 3))])
+    if r < 0.62: return ("tern", rnd_tree(rng, depth - 1, regops), rnd_tree(rng, depth - 1, regops), rnd_tree(rng, depth - 1, regops))
     if r < 0.74:
         op = rng.choice(OLD_OPS) if rng.random() < 0.75 else rng.choice(ALL_OPS)
-        return ("nbin" if rng.random() < 0.1 else "bin", op, rnd_tree(rng, depth - 1), rnd_tree(rng, depth - 1))
-    if r < 0.8:
+        return ("nbin" if rng.random() < 0.1 else "bin", op, rnd_tree(rng, depth - 1, regops), rnd_tree(rng, depth - 1, regops))
+    if r < 0.78:
         # membership in a list written in place: every item is evaluated, matching or not, in order
         items = [plain_item(rng) for _ in range(rng.randint(1, 4))]
-        if rng.random() < 0.3: items[rng.randrange(len(items))] = rnd_tree(rng, depth - 1)
-        lhs = rng.choice([plain_item(rng), ("lit", rng.choice(["0", "1", "2", "5"])), rnd_tree(rng, depth - 1)])
+        if rng.random() < 0.3: items[rng.randrange(len(items))] = rnd_tree(rng, depth - 1, regops)
+        lhs = rng.choice([plain_item(rng), ("lit", rng.choice(["0", "1", "2", "5"])), rnd_tree(rng, depth - 1, regops)])
         return ("nbin" if rng.random() < 0.3 else "bin", "in", lhs, ("list", items))
-    if r < 0.83:
+    if r < 0.82 and regops:
+        q = rng.random()
+        if q < 0.5: return ("bin", "~>", rnd_tree(rng, depth - 1, regops), rnd_tree(rng, depth - 1, regops))
+        if q < 0.7: return ("bin", "<>", rnd_tree(rng, depth - 1, regops), rnd_tree(rng, depth - 1, regops))
+        if q < 0.85: return ("un", "!!", rnd_tree(rng, depth - 1, regops))
+        return ("post", rnd_tree(rng, depth - 1, regops), "+++")
+    if r < 0.85:
         # plain names next to assignments of those names, in one list or one argument list
         els = [rng.choice([("ref", "v"), ("ref", "w"), ("ref", rng.choice(FN)),
                            ("bin", rng.choice(["=", "+=", "*="]), ("ref", rng.choice(["v", "w"])), ("lit", rng.choice(["1", "2", "5"])))]) for _ in range(rng.randint(2, 5))]
         return ("list", els) if rng.random() < 0.5 else ("call", rng.choice(FN + ["g0", "max"]), els)
-    if r < 0.87: return ("list", [rnd_tree(rng, depth - 1) for _ in range(rng.randint(0, 3))])
-    if r < 0.91: return ("map", [(rnd_tree(rng, depth - 1), rnd_tree(rng, depth - 1)) for _ in range(rng.randint(1, 2))])
-    if r < 0.94: return ("un", rng.choice(["!", "-", "-", "not", "+", "AND", "OR"] if rng.random() < 0.4 else ["!", "-"]), rnd_tree(rng, depth - 1))
-    if r < 0.96: return ("post", rnd_tree(rng, depth - 1), rng.choice(["++", "--"]))
+    if r < 0.88: return ("list", [rnd_tree(rng, depth - 1, regops) for _ in range(rng.randint(0, 3))])
+    if r < 0.91: return ("map", [(rnd_tree(rng, depth - 1, regops), rnd_tree(rng, depth - 1, regops)) for _ in range(rng.randint(1, 2))])
+    if r < 0.94: return ("un", rng.choice(["!", "-", "-", "not", "+", "AND", "OR"] if rng.random() < 0.4 else ["!", "-"]), rnd_tree(rng, depth - 1, regops))
+    if r < 0.96: return ("post", rnd_tree(rng, depth - 1, regops), rng.choice(["++", "--"]))
     # the target may be a name bound to a context function: reading it is a call (which may fail), the assignment then re-binds it
-    return ("bin", rng.choice(["=", "+="]) if rng.random() < 0.6 else rng.choice(SETTERS), ("ref", rng.choice(["v", "w", "v", "w"] + FN)), rnd_tree(rng, depth - 1))
+    return ("bin", rng.choice(["=", "+="]) if rng.random() < 0.6 else rng.choice(SETTERS), ("ref", rng.choice(["v", "w", "v", "w"] + FN)), rnd_tree(rng, depth - 1, regops))
 
 class P:
     prop = "C07"
@@ -77,7 +87,7 @@ class P:
         self.skipped = 0
 
     def generate(self, tier, rng):
-        PT = progs.prec_table()
+        PT = dict(progs.prec_table()); PT.update(REGI)
         ntrees = 400 if tier == "quick" else 20000
         items = []
         # the SAME effectful name in every operand position of one node: each occurrence is its own evaluation
@@ -97,17 +107,23 @@ class P:
                  [("call", "max", [V, asg(V, "=", "9"), V])], [("list", [F, asg(F, "=", "1"), F, V])], [("list", [W, asg(W, "=", "1"), W, V, asg(V, "=", "0"), V])],
                  [("map", [(asg(V, "=", "2"), V), (V, W)])], [("call", "f2", [("list", [V, asg(V, "*=", "3"), V]), V])],
                  [("list", [V, W, asg(W, "=", "7"), ("call", "f0", [W, V])]), ("list", [V, W])]]
+        # chains of the registered operators (right-associative: the tree leans right, the operands still run left to right)
+        F1, F2, F3 = ("ref", "f1"), ("ref", "f2"), ("call", "f3", [])
+        same += [[("bin", "~>", F, ("bin", "~>", F1, ("bin", "~>", F2, F3)))], [("bin", "~>", F, ("bin", "~>", F1, F2))], [("bin", "~>", F, F1)],
+                 [("bin", "+", F, ("bin", "~>", F1, F2))], [("bin", "<>", ("bin", "<>", F, F1), F2)], [("bin", "<>", F, ("bin", "~>", F1, ("bin", "~>", F2, F3)))],
+                 [("bin", "~>", ("un", "!!", F), ("bin", "~>", ("post", F1, "+++"), F2))], [("nbin", "~>", F, ("bin", "~>", F1, F2))],
+                 [("bin", "=", V, ("bin", "~>", F, ("bin", "~>", F1, F2))), V], [("list", [("bin", "~>", F, ("bin", "~>", F1, F2)), F3])]]
         crafted = list(same)
         for _ in range(ntrees):
-            stmts = crafted.pop() if crafted else [rnd_tree(rng, rng.choice([2, 3, 4])) for _ in range(rng.choice([1, 1, 2, 3]))]
+            stmts = crafted.pop() if crafted else [rnd_tree(rng, rng.choice([2, 3, 4]), True) for _ in range(rng.choice([1, 1, 2, 3]))]
             handlers = {}
-            for name, hid in list(HIDS.items()) + list(GLOBALS.items()):
+            for name, hid in list(HIDS.items()) + list(GLOBALS.items()) + list(REGOPS.items()):
                 handlers[hid] = ("count", [("ret", rng.choice(RET)) for _ in range(rng.randint(1, 4))] + ([("arg", 0)] if rng.random() < 0.3 else []))
             ctx = {"v": ("var", n(4))}
             for name, hid in HIDS.items(): ctx[name] = ("func", hid)
             base = self.mk(stmts, ctx, handlers, PT, ("plain",))
             items.append(base)
-            cls, val, fctx, log = speceval.run_program(stmts, ctx, handlers, GLOBALS)
+            cls, val, fctx, log = speceval.run_program(stmts, ctx, handlers, GLOBALS, REGOPS)
             # inject an Err at every invocation index k (bounded per tree in quick)
             ks = list(range(len(log)))
             if tier == "quick" and len(ks) > 4: ks = rng.sample(ks, 4)
@@ -124,6 +140,8 @@ class P:
         src = "; ".join(progs.render_min(s, PT) for s in stmts)
         ops = ["H:%d:%s" % (hid, speceval.to_proto_script(s)) for hid, s in sorted(handlers.items())]
         ops += ["REGF:%s:%d" % (hx(nm), hid) for nm, hid in GLOBALS.items()]
+        ops += ["REGI:%s:%x:0:%d:%d" % (hx(nm), REGI[nm][0], 1 if REGI[nm][1] else 0, hid) if kind == "I" else
+                "REG%s:%s:%d" % (kind, hx(nm), hid) for (kind, nm), hid in REGOPS.items()]
         for k, v in ctx.items():
             ops.append("CV:1:%s:%s" % (hx(k), speceval.to_proto_value(v[1])) if v[0] == "var" else "CF:1:%s:%d" % (hx(k), v[1]))
         return (" ".join(ops + ["EXEC:1:" + hx(src)]), (stmts, ctx, handlers, tag, src))
@@ -152,7 +170,7 @@ class P:
         d = values.split_exec(impl.split(" ")[-1])
         if d["cls"] not in ("OK", "ERR"): return "violates", "evaluation did not return: " + d["cls"]
         stmts, ctx, handlers, tag, src = case.meta
-        cls, val, fctx, log = speceval.run_program(stmts, ctx, handlers, GLOBALS)
+        cls, val, fctx, log = speceval.run_program(stmts, ctx, handlers, GLOBALS, REGOPS)
         if cls == "SKIP":
             self.skipped += 1; return "ok", ""
         want_log = "L[%s]" % ";".join("%d(%s)" % (h, ",".join(speceval.to_proto_value(a) for a in args)) for h, args in log)
